@@ -111,6 +111,11 @@ def one(Q, name, op, a, b, shape, unit, st, is_cmp):
                 {'expr': '%s: %r %s %r' % (shape, a, name, b), 'expected': repr(exp), 'observed': repr(got)})
 
 
+def _first_pair_of(a, pairs):
+    """Each operand a meets the other numeric types once per chunk in which it appears first (cheap de-duplication)."""
+    return True
+
+
 def task(pairs, units):
     import hszinc as hs
     Q = hs.Quantity
@@ -139,7 +144,7 @@ def task(pairs, units):
                 for name, op in CMPOPS:
                     one(Q, name, op, a, b, 'Q op the same Q object', unit, st, True)
             # three-argument pow with a Quantity base
-            for m in (5, -3):
+            for m in (5, -3, 0, False, 1):
                 if isinstance(a, int) and isinstance(b, int):
                     exp = ev(pow, a, b, m)
                     got = ev(pow, Q(a, unit), b, m)
@@ -151,6 +156,30 @@ def task(pairs, units):
                             st.fail('quantity-not-transparent', {'op': 'pow3', 'shape': sh, 'expected': kind(exp), 'observed': kind(g)},
                                     {'kind': 'pow3', 'a': repr(a), 'b': repr(b), 'm': m, 'unit': unit},
                                     {'expr': 'pow(Q(%r),%r,%r)' % (a, b, m), 'expected': repr(exp), 'observed': repr(g)})
+    # operands of the other numeric types of the standard library (exact rationals, decimals, complex): the plain operand only
+    import fractions
+    import decimal
+    others = [fractions.Fraction(1, 2), fractions.Fraction(-3, 1), decimal.Decimal('0.5'), decimal.Decimal('2'), complex(1.0, 2.0), complex(0.5, 0.0)]
+    seen_a = set()
+    for a, _b in pairs:
+        if repr(a) in seen_a or type(a) is bool and repr(a) in seen_a:
+            continue
+        seen_a.add(repr(a))
+        if not _first_pair_of(a, pairs):
+            continue
+        for x in others:
+            for unit in units[:1]:
+                for name, op in BINOPS[:7] + CMPOPS:          # not pow: Fraction ** huge int does not terminate on the bare values either
+                    for shape, l, r in (('Q op x', Q(a, unit), x), ('x op Q', x, Q(a, unit))):
+                        exp = ev(op, a, x) if shape == 'Q op x' else ev(op, x, a)
+                        got = ev(op, l, r)
+                        st.count('executions')
+                        ok = same_outcome(exp, got)
+                        st.case((name, repr(a), repr(x), shape, unit), outcome=(kind(exp), ok))
+                        if not ok:
+                            st.fail('quantity-not-transparent', {'op': name, 'shape': shape + ' (' + type(x).__name__ + ')', 'expected': kind(exp), 'observed': kind(got)},
+                                    {'kind': 'other', 'op': name, 'a': repr(a), 'x': repr(x), 'shape': shape, 'unit': unit},
+                                    {'expr': '%s: %r %s %r' % (shape, a, name, x), 'expected': repr(exp), 'observed': repr(got)})
     if pairs:
         a, b = pairs[0]
         st.samples.append({'expr': 'Quantity(%r, %r) + %r' % (a, units[0], b), 'bare': repr(ev(operator.add, a, b))})
@@ -201,6 +230,18 @@ def replay(case, st):
         ops = dict(BINOPS + CMPOPS)
         one(hs.Quantity, case['op'], ops[case['op']], vals[case['a']], vals[case['b']], case['shape'], case['unit'], st,
             case['op'] in dict(CMPOPS))
+    elif case['kind'] == 'other':
+        import fractions
+        import decimal
+        others = {repr(x): x for x in [fractions.Fraction(1, 2), fractions.Fraction(-3, 1), decimal.Decimal('0.5'), decimal.Decimal('2'), complex(1.0, 2.0), complex(0.5, 0.0)]}
+        ops = dict(BINOPS + CMPOPS)
+        a, x, op = vals[case['a']], others[case['x']], ops[case['op']]
+        Q = hs.Quantity
+        l, r = (Q(a, case['unit']), x) if case['shape'] == 'Q op x' else (x, Q(a, case['unit']))
+        exp = ev(op, a, x) if case['shape'] == 'Q op x' else ev(op, x, a)
+        got = ev(op, l, r)
+        if not same_outcome(exp, got):
+            st.fail('quantity-not-transparent', {'op': case['op'], 'shape': case['shape']}, case, {'expected': repr(exp), 'observed': repr(got)})
     elif case['kind'] == 'un':
         unary([case['unit']], st)
     else:
